@@ -90,6 +90,7 @@ def check(ctx):
     from mc import hashseeds
     units = js.plan_units(ctx.thorough)
     units += [("hist", k, f) for k in ("int", "str") for f in ("name", "column")]
+    units += [("hist", "int", f, "recycle") for f in ("name", "column")]
     agg = hashseeds.run(ctx, "props.c09", units)
     agg.notes["bound"] = "see joinspace.plan_units: quick rows<=3 (1 key) / <=2 (2 keys); thorough rows<=4 / <=3 / <=2 (3 keys)"
     agg.notes["exhaustive"] = True
